@@ -3,8 +3,11 @@ open AcmedVerif.Props.C17
 #print axioms survives_all_histories
 #print axioms dies_is_reachable
 #print axioms survives_iff
-#print axioms c17_full_is_false
-#print axioms predict_alive_after_repair
-#print axioms shipped_alive_iff
+#print axioms c17_unrepaired_is_false
+#print axioms shipped_survives
+#print axioms shipped_predict_alive
+#print axioms unrepaired_alive_iff
 #print axioms accept_loop_continues
+#print axioms shipped_accept_loop_continues
+#print axioms accept_loop_exit_on_err_is_reachable
 #print axioms accept_loop_spawn_failure_exits
